@@ -314,9 +314,11 @@ Definition request_param_plain (g : cfg) (w : wobj) : rpres :=
 
 (* cryptojwt JWT.unpack of a JWE: decrypt (any failure is an exception the method loop skips over); a header
    cty "JWT" => the plaintext is verified as a JWS like an unwrapped one (plaintext that is not a JWS: `raise
-   Exception()`, skipped); any other / no cty => the plaintext is read as JSON and, when it is JSON, its claims are
-   taken as they are: client_id = iss WITHOUT any signature (a JWS is not JSON: the raw text comes back and
-   `.get("jti")` on it is an AttributeError, skipped) *)
+   Exception()`, skipped); any other / no cty => the plaintext is read as JSON and, when it is JSON, comes back as
+   plain claims WITHOUT a signature header (a JWS is not JSON: the raw text comes back).  f092826: what comes back
+   without `jws_header` has not been authenticated by anybody: RequestParam._verify raises ValueError, the method
+   gives up and verify_client goes on with the next method - exactly as for the other unsigned rows (alg "none",
+   no suitable key).  No identity ever comes from claims nobody signed. *)
 Definition request_param (g : cfg) (w : wobj) : rpres :=
   match w with
   | WEnc h i =>
@@ -324,15 +326,7 @@ Definition request_param (g : cfg) (w : wobj) : rpres :=
       | JOpens =>
           if j_cty_jwt h then
             match i with IJws a c s => request_param_plain g (WObj a c s) | _ => RpContinue end
-          else
-            match i with
-            | IJson c => match assoc k_iss c with
-                         | Some (PS_ x) => RpIdent x
-                         | Some (PL_ _) => RpUnmodelled
-                         | None => RpContinue
-                         end
-            | _ => RpContinue
-            end
+          else RpContinue
       | _ => RpContinue
       end
   | _ => request_param_plain g w
@@ -744,10 +738,13 @@ Fixpoint run_h (g : cfg) (d : docs) (st : state) (h : hist) (ops : list op) : li
 (* the state of the provider after a history of operations *)
 Definition state_after (g : cfg) (d : docs) (t0 : Z) (pre : list op) : state :=
   fold_left (fun st o => fst (step g d st o)) pre (init t0).
-(* a wrapper that opens onto a JWS or onto JSON claims and says cty "JWT" in its header *)
+(* a wrapper that opens onto JSON claims (whatever its cty header says), or onto a JWS and says cty "JWT" in its
+   header.  (RequestParam reads a wrapper WITHOUT cty "JWT" around a JWS as raw text and gives up, where it would
+   identify the signer of the bare JWS: the wrapper then carries LESS authority than its content.) *)
 Definition opens_on_claims (w : wobj) : Prop :=
   match w with
-  | WEnc h i => j_state h = JOpens /\ j_cty_jwt h = true /\ i <> IOther
+  | WEnc h i => j_state h = JOpens /\
+                match i with IJson _ => True | IJws _ _ _ => j_cty_jwt h = true | IOther => False end
   | _ => True
   end.
 
